@@ -17,8 +17,10 @@
 (* Model content is abstract: k, kin (plain parameters), x0 (initial       *)
 (* value) and, by variant, an effective inflow                             *)
 (*   plain   : kin                                                         *)
-(*   ia      : kin + 2*x0   (a parameter defined by an initial assignment  *)
-(*                           over the initial value; NOT a plain parameter)*)
+(*   ia      : kin + q, q = 2*x0 unless a row names q itself (a parameter  *)
+(*             defined by an initial assignment over the initial value;    *)
+(*             NOT a plain parameter while the assignment is in force; a   *)
+(*             scanned value replaces the assignment by a plain value)     *)
 (*   derived : 2*kin        (a derived parameter)                          *)
 (* A trajectory is determined by (x0, k, effective inflow) at Run time,    *)
 (* fluxes by (k, effective inflow) at Evaluate time.                       *)
@@ -46,7 +48,8 @@ CONSTANTS
     Ws,             \* admissible numbers of workers
     Modes,          \* subset of {"seq", "par"}
     Variants,       \* subset of {"plain", "ia", "derived"}
-    ColSets,        \* admissible column sets: sets over "k", "i" (= k_in), "x" (= initial value of x)
+    ColSets,        \* admissible column sets: sets over "k", "i" (= k_in), "x" (= initial value of x) and
+                    \* "q" (the assignment-defined parameter itself; only with variant "ia")
     Kinds,          \* scan entry points (only carried into the emitted configuration)
     FailModes,      \* ways a row may fail (carried into the configuration)
     MaxDur,         \* durations 1..MaxDur (Timed)
@@ -70,25 +73,29 @@ VARIABLES
 
 vars == <<cfg, phase, dur, obj, task, out, eval, clock, forder, ftick, eorder>>
 
-Original == [k |-> 1, kin |-> 2, x0 |-> 1]
+Unassigned == 0 - 1         \* q still follows its initial assignment
+Original == [k |-> 1, kin |-> 2, x0 |-> 1, q |-> Unassigned]
 HasCol(c) == c \in cfg.cols
 \* distinct per row and deliberately not monotone in the row number (sorting the rows must be visible)
 Perm == <<3, 5, 2, 6, 4>>
-RowVal(i, c) == IF c = "k" THEN Perm[i] ELSE IF c = "i" THEN Perm[i] + 1 ELSE Perm[i] + 2
+RowVal(i, c) == IF c = "k" THEN Perm[i] ELSE IF c = "i" THEN Perm[i] + 1 ELSE IF c = "x" THEN Perm[i] + 2 ELSE Perm[i] + 5
 
-KinEff(variant, kin, x0) ==
-    IF variant = "ia" THEN kin + 2 * x0 ELSE IF variant = "derived" THEN 2 * kin ELSE kin
+KinEff(variant, kin, x0, q) ==
+    IF variant = "ia" THEN kin + (IF q = Unassigned THEN 2 * x0 ELSE q)
+    ELSE IF variant = "derived" THEN 2 * kin ELSE kin
 
 \* apply row i: columns that are variables set initial values, the others parameters
 WithRow(c, i) ==
     [k   |-> IF HasCol("k") THEN RowVal(i, "k") ELSE c.k,
      kin |-> IF HasCol("i") THEN RowVal(i, "i") ELSE c.kin,
-     x0  |-> IF HasCol("x") THEN RowVal(i, "x") ELSE c.x0]
+     x0  |-> IF HasCol("x") THEN RowVal(i, "x") ELSE c.x0,
+     q   |-> IF HasCol("q") THEN RowVal(i, "q") ELSE c.q]
 
-PlainPars(c) == [k |-> c.k, kin |-> c.kin]
-WithPlain(c, p) == [c EXCEPT !.k = p.k, !.kin = p.kin]
-Traj(c) == [x0 |-> c.x0, k |-> c.k, kineff |-> KinEff(cfg.variant, c.kin, c.x0)]
-Flux(c) == [k |-> c.k, kineff |-> KinEff(cfg.variant, c.kin, c.x0)]
+\* q is among the plain parameters exactly when a value has replaced its assignment
+PlainPars(c) == [k |-> c.k, kin |-> c.kin, q |-> c.q]
+WithPlain(c, p) == [c EXCEPT !.k = p.k, !.kin = p.kin, !.q = IF p.q = Unassigned THEN @ ELSE p.q]
+Traj(c) == [x0 |-> c.x0, k |-> c.k, kineff |-> KinEff(cfg.variant, c.kin, c.x0, c.q)]
+Flux(c) == [k |-> c.k, kineff |-> KinEff(cfg.variant, c.kin, c.x0, c.q)]
 
 \* what a fresh copy of the original model with exactly row i applied gives
 Expected(i) ==
@@ -120,7 +127,8 @@ Setup ==
                 (cfg.mode = "seq" => v = 1) /\ cfg' = [cfg EXCEPT !.w = v] /\ UNCHANGED <<phase, dur>>
        \/ cfg.w # 0 /\ cfg.n = 0 /\ \E v \in Ns : cfg' = [cfg EXCEPT !.n = v] /\ UNCHANGED <<phase, dur>>
        \/ cfg.n # 0 /\ cfg.variant = "" /\ \E v \in Variants : cfg' = [cfg EXCEPT !.variant = v] /\ UNCHANGED <<phase, dur>>
-       \/ cfg.variant # "" /\ cfg.cols = {} /\ \E v \in ColSets : cfg' = [cfg EXCEPT !.cols = v] /\ UNCHANGED <<phase, dur>>
+       \/ cfg.variant # "" /\ cfg.cols = {} /\ \E v \in ColSets :
+                ("q" \in v => cfg.variant = "ia") /\ cfg' = [cfg EXCEPT !.cols = v] /\ UNCHANGED <<phase, dur>>
        \/ cfg.cols # {} /\ cfg.fail = 0 - 1 /\ \E v \in {0, 0 - 2} : cfg' = [cfg EXCEPT !.fail = v] /\ UNCHANGED <<phase, dur>>
        \/ cfg.fail = 0 - 2 /\ \E v \in 1..cfg.n : cfg' = [cfg EXCEPT !.fail = v] /\ UNCHANGED <<phase, dur>>
        \/ cfg.fail > 0 /\ cfg.failmode = "" /\ \E v \in FailModes :
@@ -228,6 +236,6 @@ CallerUntouched == (Started /\ ~(cfg.mode = "seq" /\ SharedInSeq)) => obj[0] = O
 Emit == (EmitOn /\ phase = "done") =>
     PrintT("@J@" \o ToJson([cfg |-> cfg, dur |-> dur, forder |-> forder, ftick |-> ftick, eorder |-> eorder,
                             worker |-> [i \in Rows |-> task[i].w],
-                            vals |-> [i \in Rows |-> [k |-> RowVal(i, "k"), i |-> RowVal(i, "i"), x |-> RowVal(i, "x")]],
+                            vals |-> [i \in Rows |-> [k |-> RowVal(i, "k"), i |-> RowVal(i, "i"), x |-> RowVal(i, "x"), q |-> RowVal(i, "q")]],
                             expect |-> [i \in Rows |-> Expected(i)]]) \o "@E@")
 =============================================================================
